@@ -171,7 +171,9 @@ Chk_Initialize(t, s, e) == Tag("Init.dates", InitDatesC(t, e)) \cup Tag("Init.bo
 Upd_Initialize(t, s, e) ==
   [s EXCEPT !.ws = [W |-> e.W, pond |-> IF Has(e, "pond") THEN e.pond ELSE Z],
             !.fcAdj = Cfg(t).Wfc, !.clk = e.clock, !.phash = e.phash, !.crop = Cfg(t).crop0,
-            !.ic0 = IF Has(e, "ic") THEN e.ic ELSE s.ic0]
+            !.ic0 = IF Has(e, "ic") THEN e.ic ELSE s.ic0,
+            \* water standing at the start can only be the initial bund water of the management in force on the first day
+            !.bprev = LET fm == IF e.clock.season = 0 THEN Cfg(t).field ELSE Cfg(t).fallow IN [known |-> TRUE, eff |-> fm.effBunds, z |-> fm.zBund]]
 
 \* ---- DayBegin
 DayBeginClockC(t, s, e) ==
@@ -182,7 +184,10 @@ DayBeginClockC(t, s, e) ==
     flags  |-> e.mature = s.clk.mature /\ e.dead = s.clk.dead /\ e.harvested = s.clk.harvested,
     notFinished |-> ~s.clk.finished,
     nStats |-> e.nStats = s.clk.nStats ]
-DayBeginWeatherC(t, s, e) == [ byDate |-> e.wxDate = e.date ]
+\* the weather used on a day is the user's record of that date - its date AND its four values (wxRef: the harness's own copy of the table,
+\* taken before the model was initialised)
+DayBeginWeatherC(t, s, e) == [ byDate |-> e.wxDate = e.date,
+                               byValue |-> Has(e, "wxRef") => (Eq(e.Tmin, e.wxRef[1]) /\ Eq(e.Tmax, e.wxRef[2]) /\ Eq(e.P, e.wxRef[3]) /\ Eq(e.ET0, e.wxRef[4])) ]
 CarryC(t, s, e) == [ water |-> ~Has(e, "W"), pond |-> ~Has(e, "pond") ]
 Chk_DayBegin(t, s, e) == Tag("DayBegin.clock", DayBeginClockC(t, s, e)) \cup Tag("DayBegin.weather", DayBeginWeatherC(t, s, e))
                          \cup Tag("Carry", CarryC(t, s, e))
@@ -255,6 +260,9 @@ IrrigateAll(t, s, e) ==
                                    /\ Eq(e.maxSeason, c.maxSeason) /\ e.interval = c.interval /\ Eq(e.depth, DepthOn(t, s.clk.tsc))
                                    /\ Len(e.smt) = Len(c.smt) /\ \A i \in 1..Len(c.smt) : Eq(e.smt[i], c.smt[i])),
     cfgFallow |-> (~inSeasonMgmt) => e.method = 0,
+    \* the depletion estimate the decision is based on: root-zone depletion + yesterday's evaporative demand - today's rain + runoff - the water
+    \* held above field capacity in the root zone (re-derived by the harness from the state handed to the stage)
+    estimate  |-> (e.gs /\ Has(e, "deplExp") /\ Finite(e.depl) /\ Finite(e.deplExp)) => (Near(e.depl, e.deplExp, Tol6) /\ Near(e.taw, e.tawExp, Tol6)),
     gsAgrees  |-> e.gs = s.d.gs,
     dapAgrees |-> e.gs => e.dap = s.clk.dap + 1,
     stageOfYesterday |-> (e.gs /\ e.dap > 1) => e.stage = s.stage,
